@@ -478,7 +478,7 @@ fn multi_clause_imports(rep: &mut Report) {
 /// same member inside the defining module.
 fn copied_body_sources(da: &str, db: &str, form: &str, kw: &str) -> (Vec<String>, &'static str) {
     let a = format!(
-        "Ma DEFINITIONS {da} ::= BEGIN\nEXPORTS ALL;\nBase ::= {kw} {{ xa [0] INTEGER, ya [1] BOOLEAN OPTIONAL }}\nPar {{ Tp }} ::= {kw} {{ xa [0] Tp, ya [1] BOOLEAN OPTIONAL }}\nHome ::= Par {{ INTEGER }}\nEND\n"
+        "Ma DEFINITIONS {da} ::= BEGIN\nEXPORTS ALL;\nBase ::= {kw} {{ xa [0] INTEGER, ya [1] BOOLEAN OPTIONAL, za [2] {kw} {{ pa INTEGER, qa BOOLEAN OPTIONAL }} }}\nPar {{ Tp }} ::= {kw} {{ xa [0] Tp, ya [1] BOOLEAN OPTIONAL, za [2] {kw} {{ pa INTEGER, qa BOOLEAN OPTIONAL }} }}\nHome ::= Par {{ INTEGER }}\nEND\n"
     );
     let b = match form {
         "components-of" => format!("Mb DEFINITIONS {db} ::= BEGIN\nIMPORTS Base FROM Ma;\nCopy ::= {kw} {{ zb [7] NULL, COMPONENTS OF Base }}\nEND\n"),
@@ -516,6 +516,23 @@ fn copied_bodies(rep: &mut Report) {
                         let (crate::proj::Kind::Struct { fields: fo, .. }, crate::proj::Kind::Struct { fields: fc, .. }) = (&orig.kind, &copy.kind) else { continue };
                         rep.count("copied_body_cases_judged", 1);
                         rep.nontrivial.insert(hash_str(&srcs.join("|")));
+                        // the anonymous nested type travels with the body: its hoisted copy is tagged automatically iff the
+                        // *defining* module says AUTOMATIC TAGS
+                        let hoisted = |m: &Module, owner: &crate::proj::Item| -> Option<bool> {
+                            let crate::proj::Kind::Struct { fields, .. } = &owner.kind else { return None };
+                            let ty = fields.iter().find(|f| f.name == "za")?.ty.clone();
+                            m.find(&ty).map(|i| i.attrs.has("automatic_tags"))
+                        };
+                        if let (Some(a_auto), Some(b_auto)) = (hoisted(ma, orig), hoisted(mb, copy)) {
+                            rep.count("copied_member_tags_compared", 1);
+                            if a_auto != b_auto {
+                                rep.violations.push(Violation {
+                                    sig: format!("c12|tagging-default-leaks-into-copied-body|{form}|nested-anonymous-type|defining={},using={}", da.split(' ').next().unwrap(), db.split(' ').next().unwrap()),
+                                    what: format!("the anonymous type of member za is tagged automatically = {a_auto} inside Ma.{home}, = {b_auto} in its copy inside Mb.Copy ({form})"),
+                                    replay: json!({"origin": format!("copied-body({da},{db},{form},{kw},a_first={a_first})"), "sources": srcs}),
+                                });
+                            }
+                        }
                         for f in fo {
                             let Some(c) = fc.iter().find(|x| x.name == f.name) else { continue };
                             rep.count("copied_member_tags_compared", 1);
